@@ -1,3 +1,4 @@
+import MwVerif.Model.Qs
 /-
 Model of the collection-archive text format shared by the writer
 (`mwlib.network.fetch.FsOutput.write_pages`, fetch.py:177-213) and the reader
@@ -8,7 +9,9 @@ The JSON text of a record's meta line is opaque here (`metaLine : Str`); the JSO
 on the Python side (trusted).  What is modelled is the framing, the `seen` de-duplication,
 the index the reader builds and the lookups.
 -/
+
 namespace MwVerif.Archive
+open MwVerif.Qs (dictGet dictSet)
 
 abbrev Str := List Char
 
@@ -71,13 +74,6 @@ structure Index where
   byTitle : List (Nat × Rec)          -- dict title -> page
   deriving Repr
 
-def dictSet {α β} [DecidableEq α] : List (α × β) → α → β → List (α × β)
-  | [], k, v => [(k, v)]
-  | (k', v') :: rest, k, v => if k' = k then (k', v) :: rest else (k', v') :: dictSet rest k v
-
-def dictGet {α β} [DecidableEq α] (d : List (α × β)) (k : α) : Option β :=
-  (d.find? (·.1 = k)).map (·.2)
-
 /-- first loop of `_read_revisions`. -/
 def indexFirst (rs : List Rec) : Index :=
   rs.foldl (fun ix r =>
@@ -89,13 +85,16 @@ def insertDesc (x : Nat × Rec) : List (Nat × Rec) → List (Nat × Rec)
   | [] => [x]
   | y :: ys => if x.1 ≥ y.1 then x :: y :: ys else y :: insertDesc x ys
 
-/-- second loop (as repaired): pages by descending revid; a title gets the first page seen. -/
+/-- second loop (as repaired): walk the pages by descending revid; a title that has no page
+yet gets the first page seen. -/
+def fillTitles (bt : List (Nat × Rec)) (es : List (Nat × Rec)) : List (Nat × Rec) :=
+  es.foldl (fun bt e => if (dictGet bt e.2.title).isSome then bt else dictSet bt e.2.title e.2) bt
+
+def sortDesc (l : List (Nat × Rec)) : List (Nat × Rec) := l.foldr insertDesc []
+
 def buildIndex (rs : List Rec) : Index :=
   let ix := indexFirst rs
-  let sorted := ix.byRevid.foldr insertDesc []
-  sorted.foldl (fun ix e =>
-    if (dictGet ix.byTitle e.2.title).isSome then ix
-    else { ix with byTitle := dictSet ix.byTitle e.2.title e.2 }) ix
+  { ix with byTitle := fillTitles ix.byTitle (sortDesc ix.byRevid) }
 
 def lookupRevid (ix : Index) (v : Nat) : Option Rec := dictGet ix.byRevid v
 def lookupTitle (ix : Index) (t : Nat) : Option Rec := dictGet ix.byTitle t
